@@ -48,6 +48,14 @@ def rule_norm_path(ctx, r):
         got = ev(np_, WD, p)
         if got != "/p/x":
             bad_abs.append((p, got))
+    # the same with a concrete absolute working directory (the common case; a 'fast path' for it must still collapse '//', trailing '/', './' and '..')
+    import posixpath as _pp
+    for wd_, p in (("/proj", "results//aln.bam"), ("/proj", "logs/"), ("/proj/", "x"), ("/proj", "./x"), ("/proj/sub", "../x"), ("/proj", "a/./b/../c"), ("/proj//data", "f.txt"),
+                   ("/proj", "plain.txt")):
+        got = ev(np_, wd_, p)
+        want_c = _pp.normpath(_pp.join(wd_, p))
+        if got != want_c:
+            bad_rel.append((f"working_dir={wd_!r}, path={p!r}", got))
     r.check(not bad_rel, con + "::relative", "a relative path is joined to the target's working directory, anchored and normalised (abspath of the join)",
             f"relative spellings are not resolved as normalise(join(working_dir, path)): {[(p, str(g).replace(WD, '<wd>')) for p, g in bad_rel[:3]]} - spellings like './x' and 'd/../x' "
             "of one file no longer compare equal (or are resolved against the invoking directory), so dependency edges, the multiple-provider check and clean's protection miss",
